@@ -90,6 +90,17 @@ Det(name, p, agg, q) ==
 
 \* declared perfect scores of the error / skill metrics (the documentation's table), and their orientation
 \* (-1: smaller is better, 1: larger is better, 0: closest to the perfect value)
+\* ---- shift lemmas: scores of the ERROR SPREAD or of ORDER do not change when a constant is added to every forecast, and scores of
+\* the errors do not change when the same constant is added to observations and forecasts (used with offsets of 10^6 in the replay:
+\* one-pass formulas that cancel catastrophically are told apart from the definitions)
+FcstShiftInvariant == {"stderror", "corr", "rankcorr", "kendallcorr", "fcststddev", "obsstddev"}
+CommonShiftInvariant == {"mae", "rmse", "bias", "stderror", "corr", "rankcorr", "kendallcorr", "fcststddev", "obsstddev"}
+ShiftF(p, k) == [i \in DOMAIN p |-> <<p[i][1], Add(p[i][2], k)>>]
+ShiftBoth(p, k) == [i \in DOMAIN p |-> <<Add(p[i][1], k), Add(p[i][2], k)>>]
+ShiftLemmas(p) == \A k \in {R(3), R(-7)} :
+   /\ \A m \in FcstShiftInvariant : Det(m, ShiftF(p, k), "mean", Zero) = Det(m, p, "mean", Zero)
+   /\ \A m \in CommonShiftInvariant : Det(m, ShiftBoth(p, k), "mean", Zero) = Det(m, p, "mean", Zero)
+
 Perfect(name) ==
   CASE name \in {"mae", "rmse", "stderror", "cmae", "derror", "leps", "alphaindex", "bias", "diff"} -> Zero
     [] name \in {"nsec", "nnsec", "kge", "corr", "rankcorr", "kendallcorr", "rmsf", "dmb", "mbias", "ratio"} -> One
